@@ -111,6 +111,13 @@ void AbstractParameterAliasable::aliasParameters(const std::string& p1, const st
     std::shared_ptr<ConstraintInterface> nc(*param2->getConstraint() & *param1->getConstraint());
     ApplicationTools::displayWarning("Aliasing parameter " + p2 + " to " + p1 + " with different constraints. They get the intersection of both constraints : " + nc->getDescription());
 
+    // Both values must satisfy the intersection: test them before either parameter is modified,
+    // so that a refused request leaves both constraints as they were.
+    if (!nc->isCorrect(param2->getValue()))
+      throw ConstraintException("AbstractParameterAliasable::aliasParameters", param2, param2->getValue());
+    if (!nc->isCorrect(param1->getValue()))
+      throw ConstraintException("AbstractParameterAliasable::aliasParameters", param1, param1->getValue());
+
     param2->setConstraint(nc);
     param1->setConstraint(nc);
   }
